@@ -28,6 +28,8 @@
 (*                  Listener._recv_one; exec_data_nosyn: the same frames   *)
 (*                  without the Syn (the 2-frame form the decoder accepts) *)
 (*   report         cascade.controller.report.serialize / deserialize      *)
+(*   exec_xproc, report_xproc   the two pickled protocols with the decoder  *)
+(*                  in another interpreter (see XprocCases)                 *)
 (*   gateway        client.request_response (request encoder, response     *)
 (*                  decoder) against client.parse_request /                *)
 (*                  client.serialize_response (msg = request, msg2 =       *)
@@ -222,7 +224,13 @@ GatewayCases == {Case2("gateway", q, p, TRUE) : q \in SubmitReqs, p \in SubmitRe
 \* every message that contains pydantic models with defaulted fields, once more built in place: the job file and the
 \* gateway requests that embed a job instance
 InPlaceCases == {InPlace(c) : c \in JobFileCases} \cup {InPlace(Case2("gateway", q, p, TRUE)) : q \in JobSubmitReqs, p \in SubmitResps}
-Cases == ShmCases \cup ExecCases \cup ReportCases \cup JobFileCases \cup GatewayCases \cup InPlaceCases
+\* CROSS-PROCESS leg of the pickled protocols (proto exec_xproc / report_xproc): the message is encoded in the harness process
+\* - after its ids have been hashed, as happens as soon as the library puts them into a set or dict - and decoded by the real
+\* decoder in a separately started interpreter with another string-hash seed, which is what a receiving host is.  There the
+\* decoded message must be interchangeable with a locally built message of the same description: equal to it, hashing like it,
+\* and found in / finding the sets and dicts built from the other one.
+XprocCases == {Case("exec_xproc", m, TRUE) : m \in Syns \cup OtherMsgs \cup Payloads} \cup {Case("report_xproc", c.msg, TRUE) : c \in ReportCases}
+Cases == ShmCases \cup ExecCases \cup ReportCases \cup JobFileCases \cup GatewayCases \cup InPlaceCases \cup XprocCases
 
 \* ---------------------------------------------------------------- post-condition
 Unordered == {"set", "dict", "obj"}
@@ -238,6 +246,9 @@ Want2(c) == IF c.proto \in {"exec_reliable", "exec_data"} THEN Ack(FieldOf(c.msg
 Frames(c) == IF c.proto = "exec_callback" THEN 1 ELSE IF c.proto \in {"exec_reliable", "exec_data_nosyn"} THEN 2
              ELSE IF c.proto = "exec_data" THEN 3 ELSE 0
 
+\* (xeq, xhash, xfound: what the receiving interpreter observed - decoded == local and local == decoded; equal hashes of
+\*  every hashable part; every part found in a set/dict made of its counterpart and every element/key of a local set/dict
+\*  found in the decoded one and vice versa)
 \* r = [built |-> "ok"|"raised", sent, sent2 : trees of the objects the harness built,
 \*      enc |-> "ok"|"raised", dec |-> "ok"|"raised"|"skipped", back, back2 : trees of what came out, frames |-> n, error |-> text]
 Post(c, r) ==
@@ -250,6 +261,10 @@ Post(c, r) ==
         \cup (IF r.enc = "ok" /\ r.dec = "ok" /\ ~Same(r.back2, Want2(c))
               THEN {IF c.proto = "gateway" THEN "decoded_response_differs" ELSE "acknowledgement_differs"} ELSE {})
         \cup (IF r.enc = "ok" /\ r.dec = "ok" /\ r.frames # Frames(c) THEN {"wrong_frame_count"} ELSE {})
+        \* observations of the receiving interpreter (TRUE for the same-process protocols, which do not make them)
+        \cup (IF r.enc = "ok" /\ r.dec = "ok" /\ ~r.xeq THEN {"decoded_not_equal_to_local_message"} ELSE {})
+        \cup (IF r.enc = "ok" /\ r.dec = "ok" /\ ~r.xhash THEN {"decoded_hashes_differently"} ELSE {})
+        \cup (IF r.enc = "ok" /\ r.dec = "ok" /\ ~r.xfound THEN {"decoded_not_found_in_local_containers"} ELSE {})
         ELSE \* outside the domain: refused when encoding, or exact - never a different message
              (IF r.enc = "ok" /\ (r.dec # "ok" \/ ~Same(r.back, c.msg)) THEN {"out_of_domain_value_altered"} ELSE {}))
 
